@@ -176,6 +176,10 @@ def _path_obligations(contract, cfg, ctx, kind, payload, pi, base, res, tier, fi
                 rec['cvc5_recheck'] = 'error: %s' % ex
         res['obligations'].append(rec)
     # reachability + witness
+    if getattr(contract, 'symbolic_only', False):
+        for rec in res['obligations']:
+            rec.pop('inputs', None)        # not replayable: the callees are replaced by contracts
+        return
     if kind == 'ok':
         s = z3.Solver()
         s.set('timeout', 10000)
